@@ -37,6 +37,7 @@ func init() {
 			{ID: "C12-R8", Title: "context installers return a derived context carrying the value", Floor: 3, Run: ctxInstallersReturnDerived},
 			{ID: "C12-R9", Title: "contexts made from nothing are an explicit table (shared with C06)", Floor: 6, Run: detachedContextsAreEnumerated},
 			{ID: "C12-R10", Title: "the mediated modules keep no run-time state", Floor: 1, Run: mediatedModulesKeepNoState},
+			{ID: "C12-R11", Title: "http request handlers run under the evaluation's context (shared with C06)", Floor: 2, Run: httpServersFollowTheEvaluation},
 		},
 	})
 }
